@@ -163,6 +163,17 @@ func ruleFastReset(c *Check, p *Program, rule string) {
 		if ci, ok := in.(ssa.CallInstruction); ok && (calleeIs(ci, pkgBlock, "Compressor.get") || calleeIs(ci, pkgBlock, "Compressor.put")) {
 			return true
 		}
+		// a function that is handed (a pointer to) one of the tables
+		if ci, ok := in.(ssa.CallInstruction); ok && !calleeIs(ci, pkgBlock, "Compressor.reset") {
+			for _, a := range ci.Common().Args {
+				if lf := lastField(a); lf == "Compressor.table" || lf == "Compressor.inUse" {
+					return true
+				}
+				if derivesFromField(a, "Compressor.table") || derivesFromField(a, "Compressor.inUse") {
+					return true
+				}
+			}
+		}
 		// a helper of the compressor (other than reset) that works on the table
 		if ci, ok := in.(ssa.CallInstruction); ok && !calleeIs(ci, pkgBlock, "Compressor.reset") {
 			if g := staticCallee(ci); g != nil && inModule(g) && g.Pkg == fn.Pkg && recvTypeName(g) == "Compressor" && len(g.Blocks) > 0 {
@@ -292,6 +303,13 @@ func ruleHCReset(c *Check, p *Program, rule string) {
 				zeroed[lf] = in
 			case "CompressorHC.needsReset":
 				flagStore = in
+			}
+			// the whole compressor set to its zero value: both tables at once
+			if k, isK := st.Val.(*ssa.Const); isK && k.Value == nil {
+				if pt, isP := st.Addr.Type().Underlying().(*types.Pointer); isP && typeName(pt.Elem()) == "CompressorHC" {
+					zeroed["CompressorHC.hashTable"] = in
+					zeroed["CompressorHC.chainTable"] = in
+				}
 			}
 		})
 	}
